@@ -96,7 +96,7 @@ Definition tm_check (s : vset) (ups : list upd) (ok : bool) (after : vset) : Z :
 Definition tm_code (c : bcase) : Z := tm_check (k_next c) (k_ups c) (k_tm_ok c) (k_next_after c).
 
 (* monitor 1 (C10_accepted on the implementation): 0 accepted; rejected with trigger
-   1 = key mismatch (C10.duplicate_pubkey_stake), 2 = no eligible candidate (C10.no_eligible_candidate),
+   1 = key mismatch (was C10.duplicate_pubkey_stake, repaired by /repo 9246c8d), 2 = no eligible candidate (C10.no_eligible_candidate),
    3 = rejected outside the known triggers *)
 Definition acc_code (c : bcase) : Z :=
   if k_tm_ok c then 0 else if key_mismatchb c then 1 else if no_eligibleb c then 2 else 3.
@@ -115,11 +115,9 @@ Definition rule_okb (c : bcase) (frozen : list key) : bool :=
                        then (top_of c <=? Z.of_nat (length pos)) && forallb (fun u => c_power d <=? u.2) pos
                        else true) (b_cands b).
 
-(* 0 = holds; 1 = fails only because a frozen validator is elected while height <= BlockVotesDiff
-   (trigger C10.frozen_elected_in_votes_window); 2 = fails otherwise *)
-Definition rule_code (c : bcase) : Z :=
-  if rule_okb c (k_frozen c) then 0
-  else if (b_height (k_in c) <=? k_bvd c) && rule_okb c (b_mal (k_in c)) then 1 else 2.
+(* 0 = holds; 2 = fails.  (Code 1 was the trigger C10.frozen_elected_in_votes_window, repaired by
+   /repo 304e1e1: a frozen validator elected at any height is now a violation.) *)
+Definition rule_code (c : bcase) : Z := if rule_okb c (k_frozen c) then 0 else 2.
 
 (* monitor 3 (C10_converges on the implementation): after 5 blocks of unchanged inputs the set
    that results from this block's updates is exactly the election.  0 = holds / not applicable;
@@ -132,7 +130,11 @@ Definition conv_code (c : bcase) : Z :=
   else if upds_eqb (canon (k_next_after c)) (canon (positives (k_ups c))) then 0
   else if member_without_recordb c then 1 else 2.
 
-Definition check_case (c : bcase) : list Z := [mm_code c; tm_code c; acc_code c; rule_code c; conv_code c].
+(* monitor 4 (invariant behind C10_accepted since /repo 9246c8d): every record's address is the
+   address of its consensus key and no two records share a key.  0 holds, 1 fails *)
+Definition keyed_code (c : bcase) : Z := if key_mismatchb c then 1 else 0.
+
+Definition check_case (c : bcase) : list Z := [mm_code c; tm_code c; acc_code c; rule_code c; conv_code c; keyed_code c].
 Definition check_cases (cs : list bcase) : list Z := flat_map check_case cs.
 
 (* a block in which the node called logger.Fatal (process exit) inside EndBlock: 1 = some validator
